@@ -1,38 +1,562 @@
-//! C08 (temporary probe skeleton)
-use grafeo_engine::GrafeoDB;
-use grafeo_common::types::Value;
-use std::io::BufRead;
+//! C08 — read queries return the answer the graph-pattern semantics defines (DESIGN.md §3/C08).
+//!
+//! Engine ENUM: every small graph of an explicit graph space x every query of the depth-bounded
+//! core grammar x every front end that can spell it, executed on the real `GrafeoDB` and compared
+//! with the naive all-bindings evaluator of `vcheck::qmodel`.  Two front ends that both answer
+//! the same question must also agree with each other.
+//!
+//! Extra modes: `c08 --probe` (reads `lang| text` lines on stdin, runs them on a fixed graph),
+//! `c08 --list [depth]` (prints the query enumeration).
+
+use grafeo_engine::Session;
+use serde_json::{Value as J, json};
+use std::cell::RefCell;
+use std::collections::{BTreeMap, BTreeSet, HashMap};
+use vcheck::qmodel::*;
 
 fn main() {
-    let _ = vcheck::entry();
-    let db = GrafeoDB::new_in_memory();
-    // fixed probe graph: n0:A{p:1,s:"x"}, n1:B{p:2}, n2 (no label, no props), n3:A:B{p:1}
-    let n0 = db.create_node_with_props(&["A"], [("p", Value::Int64(1)), ("s", Value::from("x"))]);
-    let n1 = db.create_node_with_props(&["B"], [("p", Value::Int64(2))]);
-    let n2 = db.create_node(&[]);
-    let n3 = db.create_node_with_props(&["A", "B"], [("p", Value::Int64(1))]);
-    db.create_edge_with_props(n0, n1, "K", [("w", Value::Int64(1))]);
-    db.create_edge_with_props(n1, n0, "K", [("w", Value::Int64(2))]);
-    db.create_edge(n0, n0, "L");
-    db.create_edge(n0, n1, "L");
-    db.create_edge(n2, n3, "K");
-    let stdin = std::io::stdin();
-    for line in stdin.lock().lines() {
-        let line = line.unwrap();
-        let line = line.trim();
-        if line.is_empty() || line.starts_with('#') { continue; }
-        let (lang, q) = line.split_once('|').unwrap();
-        let r = vcore::catch(|| match lang.trim() {
-            "gql" => db.execute(q),
-            "cy" => db.execute_cypher(q),
-            "gr" => db.execute_gremlin(q),
-            "gq" => db.execute_graphql(q),
-            _ => panic!("lang"),
-        });
-        match r {
-            Ok(Ok(res)) => println!("{lang}| {q}\n    cols={:?} rows={:?}", res.columns, res.rows),
-            Ok(Err(e)) => println!("{lang}| {q}\n    ERR {e}"),
-            Err(p) => println!("{lang}| {q}\n    PANIC {p}"),
+    std::process::exit(run(vcheck::entry()));
+}
+
+// ---------------------------------------------------------------------------------------------
+// judging one (graph, query, language)
+// ---------------------------------------------------------------------------------------------
+
+#[derive(Clone, Debug)]
+enum Judged {
+    /// the renderer has no spelling
+    NoSpelling,
+    /// the engine answered `Err` (counted as not expressible)
+    EngineErr(String),
+    Ok { rows: Vec<Vec<grafeo_common::types::Value>>, tol: Vec<&'static str>, nonempty: bool },
+    Bad { kind: &'static str, detail: String, rows: Vec<Vec<grafeo_common::types::Value>> },
+}
+impl Judged {
+    fn kind(&self) -> Option<&'static str> {
+        match self {
+            Judged::Bad { kind, .. } => Some(kind),
+            _ => None,
         }
     }
+    fn rows(&self) -> Option<&Vec<Vec<grafeo_common::types::Value>>> {
+        match self {
+            Judged::Ok { rows, .. } | Judged::Bad { rows, .. } => Some(rows),
+            _ => None,
+        }
+    }
+}
+
+fn needs_alt(g: &QGraph, q: &Query) -> bool {
+    g.edges.iter().any(|e| e.src == e.dst) && q.paths.iter().any(|p| p.hops.iter().any(|h| h.dir == Dir::Both))
+}
+
+fn judge_text(g: &QGraph, ids: &IdMap, s: &Session, q: &Query, lang: Lang, text: &str) -> Judged {
+    match exec_session(s, lang, text) {
+        Exec::Err(e) => Judged::EngineErr(e),
+        Exec::Panic(p) => Judged::Bad { kind: "panic", detail: format!("panic: {p}"), rows: vec![] },
+        Exec::Rows(rows) => {
+            let want = eval(g, ids, q, EvalOpts { loop_twice: true });
+            let alt = if needs_alt(g, q) { Some(eval(g, ids, q, EvalOpts { loop_twice: false })) } else { None };
+            // Gremlin `values(k)`: TinkerPop skips elements without the property, this engine emits
+            // NULL; the statement does not decide, so NULL rows are dropped on both sides.
+            let gremlin_values = lang == Lang::Gremlin && q.items.len() == 1 && matches!(q.items[0], Item::Prop(..));
+            let strip = |rows: Vec<Vec<grafeo_common::types::Value>>| -> Vec<Vec<grafeo_common::types::Value>> { rows.into_iter().filter(|r| !(r.len() == 1 && r[0].is_null())).collect() };
+            let (rows, want, alt, mut extra_tol) = if gremlin_values {
+                let had_null = rows.iter().any(|r| r.len() == 1 && r[0].is_null());
+                let fix = |mut a: RefAnswer| {
+                    let keep: Vec<bool> = a.rows.iter().map(|r| !(r.len() == 1 && r[0].is_null())).collect();
+                    if let Some(k) = a.keys.as_mut() {
+                        let mut it = keep.iter();
+                        k.retain(|_| *it.next().unwrap());
+                    }
+                    let mut it = keep.iter();
+                    a.rows.retain(|_| *it.next().unwrap());
+                    a
+                };
+                (strip(rows), fix(want), alt.map(fix), if had_null { vec!["gremlin-values-null"] } else { vec![] })
+            } else {
+                (rows, want, alt, vec![])
+            };
+            match compare(&rows, &want, alt.as_ref()) {
+                Verdict::Ok(mut tol) => {
+                    tol.append(&mut extra_tol);
+                    Judged::Ok { rows, tol, nonempty: want.bindings > 0 }
+                }
+                Verdict::Bad { kind, detail } => Judged::Bad { kind, detail, rows },
+            }
+        }
+    }
+}
+
+fn judge(g: &QGraph, ids: &IdMap, s: &Session, q: &Query, lang: Lang) -> Judged {
+    match render(q, lang) {
+        None => Judged::NoSpelling,
+        Some(text) => judge_text(g, ids, s, q, lang, &text),
+    }
+}
+
+/// Is there a reportable disagreement between two languages on (g, q)?  Only judged when the
+/// reference answer is unique (no window unless the order is total).  A difference where at
+/// least one side already deviates from the reference is implied by that deviation (reported
+/// there, with its own root cause) and only counted; what remains are two answers that both pass
+/// the reference check yet differ from each other (possible through the tolerances).
+/// Returns (differ, reportable).
+fn disagree(g: &QGraph, ids: &IdMap, q: &Query, a: &Judged, b: &Judged) -> (bool, bool) {
+    let (Some(ra), Some(rb)) = (a.rows(), b.rows()) else { return (false, false) };
+    if a.kind() == Some("panic") || b.kind() == Some("panic") {
+        return (false, false);
+    }
+    let want = eval(g, ids, q, EvalOpts::default());
+    let total = want.total_order();
+    if want.has_window() && !total {
+        return (false, false);
+    }
+    // Gremlin values(): NULL rows were dropped on that side, drop them on the other side too
+    let single_prop = q.items.len() == 1 && matches!(q.items[0], Item::Prop(..));
+    let strip = |rows: &Vec<Vec<grafeo_common::types::Value>>| -> Vec<Vec<grafeo_common::types::Value>> { rows.iter().filter(|r| !(single_prop && r.len() == 1 && r[0].is_null())).cloned().collect() };
+    if answers_agree(&strip(ra), &strip(rb), total) {
+        return (false, false);
+    }
+    (true, a.kind().is_none() && b.kind().is_none())
+}
+
+// ---------------------------------------------------------------------------------------------
+// minimisation of a failing case
+// ---------------------------------------------------------------------------------------------
+
+thread_local! {
+    /// (graph, lang(s), query text) -> does the failure of the given kind reproduce
+    static MEMO: RefCell<HashMap<(String, String, String, bool), bool>> = RefCell::new(HashMap::new());
+}
+
+struct Minimiser {
+    execs: u64,
+}
+impl Minimiser {
+    /// `fails(g, q)` re-evaluates the failure on a fresh database.
+    fn fails(&mut self, g: &QGraph, q: &Query, langs: &[Lang], kind: &'static str) -> bool {
+        let Some(text) = render(q, Lang::Gql) else { return false };
+        let key = (g.pretty(), langs.iter().map(|l| l.name()).collect::<Vec<_>>().join("+"), text, kind == "panic");
+        if let Some(v) = MEMO.with(|m| m.borrow().get(&key).copied()) {
+            return v;
+        }
+        let (db, ids) = load(g);
+        let s = db.session();
+        self.execs += 1;
+        let v = if langs.len() == 1 {
+            // any deviation keeps the case alive (the kind of the minimal case is reported), but a
+            // panic only shrinks to a panic and vice versa
+            match judge(g, &ids, &s, q, langs[0]).kind() {
+                Some(k) => (k == "panic") == (kind == "panic"),
+                None => false,
+            }
+        } else {
+            let a = judge(g, &ids, &s, q, langs[0]);
+            let b = judge(g, &ids, &s, q, langs[1]);
+            disagree(g, &ids, q, &a, &b).1
+        };
+        MEMO.with(|m| {
+            let mut m = m.borrow_mut();
+            if m.len() > 400_000 {
+                m.clear();
+            }
+            m.insert(key, v);
+        });
+        v
+    }
+    fn minimise(&mut self, g: &QGraph, q: &Query, langs: &[Lang], kind: &'static str) -> (QGraph, Query) {
+        let (mut g, mut q) = (g.clone(), q.clone());
+        loop {
+            let mut progress = false;
+            'q: loop {
+                for q2 in q.shrinks() {
+                    if self.fails(&g, &q2, langs, kind) {
+                        q = q2;
+                        progress = true;
+                        continue 'q;
+                    }
+                }
+                break;
+            }
+            'g: loop {
+                for g2 in g.shrinks() {
+                    if self.fails(&g2, &q, langs, kind) {
+                        g = g2;
+                        progress = true;
+                        continue 'g;
+                    }
+                }
+                break;
+            }
+            if !progress {
+                return (g, q);
+            }
+        }
+    }
+}
+
+fn signature(langs: &str, kind: &str, g: &QGraph, q: &Query) -> Vec<(String, String)> {
+    let mut sig: Vec<(String, String)> = vec![("lang".into(), langs.into()), ("kind".into(), kind.into())];
+    for (k, v) in q.features() {
+        sig.push((k.to_string(), v));
+    }
+    let mut gf: BTreeSet<&str> = g.features();
+    // query-relative witness feature: a property the query reads is absent on some element
+    let evars = q.edge_vars();
+    for (v, k) in q.props_read() {
+        let missing = if evars.contains(&v) { g.edges.iter().any(|e| !e.props.contains_key(&k)) } else { g.nodes.iter().any(|n| !n.props.contains_key(&k)) };
+        if missing {
+            gf.insert("missing-property");
+        }
+    }
+    let gf: Vec<&str> = gf.into_iter().collect();
+    sig.push(("graph".into(), if gf.is_empty() { "plain".into() } else { gf.join("+") }));
+    sig
+}
+
+// ---------------------------------------------------------------------------------------------
+// one shard = one graph
+// ---------------------------------------------------------------------------------------------
+
+const CASES_PER_SIG: usize = 20;
+
+#[derive(Default)]
+struct Shard {
+    evaluations: u64,
+    counts: BTreeMap<String, u64>,
+    nontrivial: BTreeSet<u64>,
+    /// signature string -> (occurrences, first cases)
+    viols: BTreeMap<String, (u64, Vec<vcore::Violation>)>,
+    errs: BTreeMap<String, u64>,
+    samples: Vec<J>,
+}
+impl Shard {
+    fn add(&mut self, k: &str, n: u64) {
+        *self.counts.entry(k.to_string()).or_insert(0) += n;
+    }
+    fn violation(&mut self, sig: Vec<(String, String)>, case: J, detail: String) {
+        let fields: Vec<(&str, &str)> = sig.iter().map(|(k, v)| (k.as_str(), v.as_str())).collect();
+        let v = vcore::Violation::new(&fields, case, detail);
+        let e = self.viols.entry(v.sig_string()).or_insert((0, vec![]));
+        e.0 += 1;
+        if e.1.len() < CASES_PER_SIG {
+            e.1.push(v);
+        }
+    }
+    fn merge(&mut self, o: Shard) {
+        self.evaluations += o.evaluations;
+        for (k, n) in o.counts {
+            *self.counts.entry(k).or_insert(0) += n;
+        }
+        self.nontrivial.extend(o.nontrivial);
+        for (k, (n, cases)) in o.viols {
+            let e = self.viols.entry(k).or_insert((0, vec![]));
+            e.0 += n;
+            for c in cases {
+                if e.1.len() < CASES_PER_SIG {
+                    e.1.push(c);
+                }
+            }
+        }
+        for (k, n) in o.errs {
+            *self.errs.entry(k).or_insert(0) += n;
+        }
+        for s in o.samples {
+            if self.samples.len() < 8 {
+                self.samples.push(s);
+            }
+        }
+    }
+}
+
+fn err_class(lang: Lang, e: &str) -> String {
+    let first = e.lines().next().unwrap_or("");
+    // drop the variable tail of messages so that classes stay few
+    let cut = first.find(" '").or_else(|| first.find(": Id(")).or_else(|| first.find(": Var")).unwrap_or(first.len());
+    format!("{}: {}", lang.name(), vcore::truncate(&first[..cut], 90))
+}
+
+struct Plan {
+    queries: Vec<Query>,
+    /// texts[query][lang]
+    texts: Vec<[Option<String>; 4]>,
+}
+
+fn case_json(g: &QGraph, q: &Query, langs: &[Lang], kind: &str) -> J {
+    json!({
+        "graph": g.to_json(),
+        "graph_pretty": g.pretty(),
+        "query": q.to_json(),
+        "langs": langs.iter().map(|l| l.name()).collect::<Vec<_>>(),
+        "texts": langs.iter().map(|l| render(q, *l)).collect::<Vec<_>>(),
+        "kind": kind,
+    })
+}
+
+fn run_graph(gi: usize, g: &QGraph, plan: &Plan) -> Shard {
+    let mut sh = Shard::default();
+    let (db, ids) = load(g);
+    let s = db.session();
+    let mut mini = Minimiser { execs: 0 };
+    for (qi, q) in plan.queries.iter().enumerate() {
+        let mut judged: Vec<(Lang, Judged)> = vec![];
+        for (li, lang) in Lang::ALL.into_iter().enumerate() {
+            let Some(text) = &plan.texts[qi][li] else { continue };
+            let j = judge_text(g, &ids, &s, q, lang, text);
+            sh.evaluations += 1;
+            sh.add(&format!("{}.executed", lang.name()), 1);
+            match &j {
+                Judged::NoSpelling => {}
+                Judged::EngineErr(e) => {
+                    sh.add(&format!("{}.not_expressible_err", lang.name()), 1);
+                    *sh.errs.entry(err_class(lang, e)).or_insert(0) += 1;
+                }
+                Judged::Ok { tol, nonempty, rows } => {
+                    sh.add(&format!("{}.agree", lang.name()), 1);
+                    for t in tol {
+                        sh.add(&format!("tolerated.{t}"), 1);
+                    }
+                    if *nonempty {
+                        sh.add("nontrivial_evaluations", 1);
+                        sh.nontrivial.insert(vcore::hash_of(&(qi, li)));
+                        if sh.samples.is_empty() && gi % 97 == 5 && qi % 89 == 7 {
+                            sh.samples.push(json!({"graph": g.pretty(), "lang": lang.name(), "query": text, "rows": format!("{rows:?}")}));
+                        }
+                    }
+                }
+                Judged::Bad { kind, detail, .. } => {
+                    sh.add(&format!("{}.deviate", lang.name()), 1);
+                    let (mg, mq) = mini.minimise(g, q, &[lang], kind);
+                    let (mkind, mdetail) = if mg == *g && mq == *q {
+                        (*kind, detail.clone())
+                    } else {
+                        let (db2, ids2) = load(&mg);
+                        let s2 = db2.session();
+                        match judge(&mg, &ids2, &s2, &mq, lang) {
+                            Judged::Bad { kind, detail, .. } => (kind, detail),
+                            _ => (*kind, detail.clone()),
+                        }
+                    };
+                    let kind = &mkind;
+                    let sig = signature(lang.name(), kind, &mg, &mq);
+                    let mut case = case_json(&mg, &mq, &[lang], kind);
+                    case["original"] = json!({"graph": g.pretty(), "query": text, "kind": kind, "detail": vcore::truncate(detail, 400)});
+                    sh.violation(sig, case, format!("{} on {} :: {} :: {}", lang.name(), mg.pretty(), render(&mq, lang).unwrap_or_default(), mdetail));
+                }
+            }
+            judged.push((lang, j));
+        }
+        // cross-language agreement
+        for a in 0..judged.len() {
+            for b in a + 1..judged.len() {
+                if judged[a].1.rows().is_some() && judged[b].1.rows().is_some() {
+                    sh.add("language_pairs_compared", 1);
+                    let (differ, reportable) = disagree(g, &ids, q, &judged[a].1, &judged[b].1);
+                    if differ && !reportable {
+                        sh.add("language_differences_implied_by_a_reference_deviation", 1);
+                    }
+                    if reportable {
+                        let langs = [judged[a].0, judged[b].0];
+                        let (mg, mq) = mini.minimise(g, q, &langs, "language-disagreement");
+                        let name = format!("{}+{}", langs[0].name(), langs[1].name());
+                        let sig = signature(&name, "language-disagreement", &mg, &mq);
+                        let case = case_json(&mg, &mq, &langs, "language-disagreement");
+                        let (db2, ids2) = load(&mg);
+                        let s2 = db2.session();
+                        let ra = judge(&mg, &ids2, &s2, &mq, langs[0]);
+                        let rb = judge(&mg, &ids2, &s2, &mq, langs[1]);
+                        sh.violation(sig, case, format!("{name} on {} :: {:?} -> {:?} / {:?} -> {:?}", mg.pretty(), render(&mq, langs[0]), ra.rows(), render(&mq, langs[1]), rb.rows()));
+                    }
+                }
+            }
+        }
+    }
+    sh.add("minimisation_executions", mini.execs);
+    sh
+}
+
+// ---------------------------------------------------------------------------------------------
+
+fn spaces(tier: vcore::Tier) -> (Vec<GraphSpace>, u32) {
+    match tier {
+        vcore::Tier::Quick => (vec![GraphSpace { max_nodes: 2, max_edges: 2, node_kinds: GraphSpace::core_node_kinds(), edge_kinds: GraphSpace::full_edge_kinds() }], 3),
+        vcore::Tier::Thorough => (
+            vec![
+                GraphSpace { max_nodes: 2, max_edges: 2, node_kinds: GraphSpace::full_node_kinds(), edge_kinds: GraphSpace::full_edge_kinds() },
+                GraphSpace { max_nodes: 3, max_edges: 3, node_kinds: GraphSpace::core_node_kinds(), edge_kinds: GraphSpace::plain_edge_kinds() },
+            ],
+            3,
+        ),
+    }
+}
+
+fn replay(case: &J) -> i32 {
+    let (Some(g), Some(q)) = (QGraph::from_json(&case["graph"]), Query::from_json(&case["query"])) else { vcore::machinery_failure("replay case lacks graph / query") };
+    let langs: Vec<Lang> = case["langs"].as_array().map(|a| a.iter().filter_map(|x| x.as_str().and_then(Lang::from_name)).collect()).unwrap_or_default();
+    let once = || -> Vec<vcore::Violation> {
+        let (db, ids) = load(&g);
+        let s = db.session();
+        let mut out = vec![];
+        let js: Vec<Judged> = langs.iter().map(|l| judge(&g, &ids, &s, &q, *l)).collect();
+        for (l, j) in langs.iter().zip(&js) {
+            println!("  {} :: {} -> {}", l.name(), render(&q, *l).unwrap_or_default(), match j {
+                Judged::Ok { rows, .. } => format!("agrees with the reference: {rows:?}"),
+                Judged::Bad { kind, detail, .. } => format!("{kind}: {detail}"),
+                Judged::EngineErr(e) => format!("Err: {e}"),
+                Judged::NoSpelling => "no spelling".into(),
+            });
+        }
+        if langs.len() == 1 {
+            if let Judged::Bad { kind, detail, .. } = &js[0] {
+                let sig = signature(langs[0].name(), kind, &g, &q);
+                let f: Vec<(&str, &str)> = sig.iter().map(|(k, v)| (k.as_str(), v.as_str())).collect();
+                out.push(vcore::Violation::new(&f, case.clone(), detail.clone()));
+            }
+        } else if langs.len() == 2 && disagree(&g, &ids, &q, &js[0], &js[1]).1 {
+            let sig = signature(&format!("{}+{}", langs[0].name(), langs[1].name()), "language-disagreement", &g, &q);
+            let f: Vec<(&str, &str)> = sig.iter().map(|(k, v)| (k.as_str(), v.as_str())).collect();
+            out.push(vcore::Violation::new(&f, case.clone(), format!("{:?} vs {:?}", js[0].rows(), js[1].rows())));
+        }
+        out
+    };
+    println!("graph: {}", g.pretty());
+    let v1 = once();
+    let v2 = once();
+    if v1.iter().map(|v| v.sig_string()).collect::<Vec<_>>() != v2.iter().map(|v| v.sig_string()).collect::<Vec<_>>() {
+        vcore::machinery_failure("replaying the same case twice gave different verdicts");
+    }
+    vcheck::replay_report("C08", v1)
+}
+
+fn probe() -> i32 {
+    use std::io::BufRead;
+    let default = "(0:A{p:1,s:x}) (1:B{p:2}) (2) (3:A:B{p:1}) 0-[K{w:1}]->1 1-[K{w:2}]->0 0-[L]->0 0-[L]->1 2-[K]->3";
+    let mut g = QGraph::parse_pretty(default).unwrap();
+    let (mut db, _) = load(&g);
+    println!("graph: {}", g.pretty());
+    for line in std::io::stdin().lock().lines() {
+        let line = line.unwrap();
+        let line = line.trim();
+        if line.is_empty() || line.starts_with('#') {
+            continue;
+        }
+        let Some((lang, q)) = line.split_once('|') else { continue };
+        if lang.trim() == "graph" {
+            match QGraph::parse_pretty(q) {
+                Some(g2) => {
+                    g = g2;
+                    db = load(&g).0;
+                    println!("graph: {}", g.pretty());
+                }
+                None => println!("cannot parse graph"),
+            }
+            continue;
+        }
+        let lang = match lang.trim() {
+            "gql" => Lang::Gql,
+            "cy" => Lang::Cypher,
+            "gr" => Lang::Gremlin,
+            _ => Lang::GraphQL,
+        };
+        let s = db.session();
+        match exec_session(&s, lang, q.trim()) {
+            Exec::Rows(r) => println!("{}| {}\n    rows={r:?}", lang.name(), q.trim()),
+            Exec::Err(e) => println!("{}| {}\n    ERR {}", lang.name(), q.trim(), e.lines().next().unwrap_or("")),
+            Exec::Panic(p) => println!("{}| {}\n    PANIC {p}", lang.name(), q.trim()),
+        }
+    }
+    0
+}
+
+fn run(args: vcore::Args) -> i32 {
+    if args.rest.iter().any(|a| a == "--probe") {
+        return probe();
+    }
+    if let Some(i) = args.rest.iter().position(|a| a == "--list") {
+        let d: u32 = args.rest.get(i + 1).and_then(|s| s.parse().ok()).unwrap_or(2);
+        for (w, q) in all_queries_weighted(d) {
+            println!("{w}\t{}\t| {}\t| {}", render_gql_like(&q), render(&q, Lang::Gremlin).unwrap_or_else(|| "-".into()), render(&q, Lang::GraphQL).unwrap_or_else(|| "-".into()));
+        }
+        return 0;
+    }
+    if let Some(p) = args.replay.as_deref() {
+        return replay(&vcore::read_replay_case(p));
+    }
+    let mut rep = vcore::Report::new("C08", args.tier, "exploration");
+    rep.rule = "every graph of the stated graph spaces (one per isomorphism class) x every query of the core grammar up to the stated depth x every front end (GQL, Cypher, Gremlin, GraphQL) that spells it; engine rows compared with the all-bindings reference evaluator (multiset; positional key check under ORDER BY; size + sub-multiset under an unordered window) and between languages; a (query, language) pair is distinct non-trivial when on some graph the reference answer is non-empty and the engine agreed".into();
+    let (gspaces, depth) = spaces(args.tier);
+    let depth = std::env::var("C08_DEPTH").ok().and_then(|s| s.parse().ok()).unwrap_or(depth);
+    let mut graphs: Vec<QGraph> = vec![];
+    let mut seen = BTreeSet::new();
+    let mut labelled_total = 0u64;
+    let mut space_json = vec![];
+    for sp in &gspaces {
+        let (gs, labelled) = sp.enumerate();
+        labelled_total += labelled;
+        let mut fresh = 0;
+        for g in gs {
+            if seen.insert(g.canonical_key()) {
+                graphs.push(g);
+                fresh += 1;
+            }
+        }
+        let mut j = sp.to_json();
+        j["labelled_graphs"] = json!(labelled);
+        j["isomorphism_classes_new"] = json!(fresh);
+        space_json.push(j);
+    }
+    if let Some(n) = std::env::var("C08_MAX_GRAPHS").ok().and_then(|s| s.parse::<usize>().ok()) {
+        graphs.truncate(n);
+        rep.exhaustive = false;
+    }
+    let queries = all_queries(depth);
+    let texts: Vec<[Option<String>; 4]> = queries.iter().map(|q| [render(q, Lang::Gql), render(q, Lang::Cypher), render(q, Lang::Gremlin), render(q, Lang::GraphQL)]).collect();
+    let mut per_lang = [0u64; 4];
+    for t in &texts {
+        for (i, x) in t.iter().enumerate() {
+            per_lang[i] += x.is_some() as u64;
+        }
+    }
+    let plan = Plan { queries, texts };
+    let shards = vcore::par_map(&graphs, vcore::cores(), |gi, g| run_graph(gi, g, &plan));
+    let mut all = Shard::default();
+    for s in shards {
+        all.merge(s);
+    }
+    rep.evaluations = all.evaluations;
+    for h in &all.nontrivial {
+        rep.nontrivial_hash(*h);
+    }
+    rep.sample(json!({"graph_first": graphs.first().map(|g| g.pretty()), "graph_last": graphs.last().map(|g| g.pretty()), "query_first": plan.queries.first().map(render_gql_like), "query_last": plan.queries.last().map(render_gql_like)}));
+    for s in all.samples {
+        rep.sample(s);
+    }
+    rep.set("bounds", json!({
+        "graph_spaces": space_json, "graphs": graphs.len(), "labelled_graphs": labelled_total,
+        "query_depth": depth, "queries": plan.queries.len(),
+        "queries_spelled": {"gql": per_lang[0], "cypher": per_lang[1], "gremlin": per_lang[2], "graphql": per_lang[3]},
+        "cases_kept_per_signature": CASES_PER_SIG,
+    }));
+    for (k, n) in &all.counts {
+        rep.set(k, json!(n));
+    }
+    let mut errs: Vec<(&String, &u64)> = all.errs.iter().collect();
+    errs.sort_by(|a, b| b.1.cmp(a.1));
+    rep.set("engine_err_classes", json!(errs.iter().take(25).map(|(k, n)| json!({"class": k, "n": n})).collect::<Vec<_>>()));
+    rep.set("violation_signatures", json!(all.viols.len()));
+    rep.set("violation_occurrences", json!(all.viols.iter().map(|(k, v)| (k.clone(), json!(v.0))).collect::<serde_json::Map<_, _>>()));
+    if std::env::var("C08_DIGEST").is_ok() {
+        for (k, (n, cases)) in &all.viols {
+            let short: Vec<&str> = k.split(',').filter(|f| !(f.ends_with("=no") || f.ends_with("=none"))).collect();
+            println!("DIGEST n={n} [{}] :: {}", short.join(","), vcore::truncate(&cases[0].detail, 330));
+        }
+    }
+    for (_, (_, cases)) in all.viols {
+        for c in cases {
+            rep.violation(c);
+        }
+    }
+    rep.assumptions.push("graph data is created through the non-transactional GrafeoDB::create_node_with_props / create_edge_with_props API before any session exists; one session per database answers all queries".into());
+    rep.assumptions.push("tolerated under-determinations (counted under tolerated.*): undirected hop over a self-loop once or twice; NULL sort keys first or last; sum over nothing 0 or NULL; Gremlin values() NULL rows dropped; Err from a front end = not expressible".into());
+    rep.finish()
 }
